@@ -278,7 +278,10 @@ def proof_walker(ctx):
     from .known_funcs import KNOWN_FUNCS
     q = "trie.hexary:HexaryTrie._get_proof"
     if q in ctx.P.funcs:
-        return ctx.P.funcs[q], "acc"
+        g = ctx.P.funcs[q]
+        if g.is_generator and len(g.params) in (3, 4):
+            return g, "gen"  # the recursion itself turned into a generator (under @to_tuple, or tuple(..) at the entry)
+        return g, "acc"
     key = "proof-walker"
     if key in ctx.cache:
         if ctx.cache[key] is None:
